@@ -268,7 +268,7 @@ def handle (case impl : List String) : Verdict :=
       let hasModel := be == "fallback" || be == "fbmod" || be == "mm"
       if i0.startsWith "panic:" then
         let v := Verdict.ok (tags ++ ["panic"])
-        let v := v.withDiff (hasModel && !(match recipSqrtRat ab with | .panic _ => panicClass i0 == "sub-overflow" | .ok _ => false)) "model does not panic here"
+        let v := v.withDiff (hasModel && !(match recipSqrtRat ab with | .panic _ => i0.startsWith "panic:" | .ok _ => false)) "model does not panic here"
         v.withSpec (dom == "positive") (be ++ "-recip-sqrt-panics") s!"recip_sqrt panicked: {i0}"
       else
       match bits? i0 with
@@ -451,7 +451,7 @@ def handle (case impl : List String) : Verdict :=
     else if op == "clamp" then
       match clamp (b 0) (b 1) (b 2) with
       | .ok m => cmpBits m
-      | .panic _ => (Verdict.ok (tags ++ ["panic"])).withDiff (panicClass i0 != "clamp") "model panics (min > max or NaN bound)"
+      | .panic _ => (Verdict.ok (tags ++ ["panic"])).withDiff (!i0.startsWith "panic:") "model panics (min > max or NaN bound)"
     else if op == "rem" then cmpBits (rem (b 0) (b 1))
     else if op == "mul" then cmpBits (mul (b 0) (b 1))
     else if op == "add" then cmpBits (add (b 0) (b 1))
